@@ -6,6 +6,8 @@ import CbiVerif.Lemmas.MacroObjSpec
 import CbiVerif.Lemmas.MacroPlainCheck
 import CbiVerif.Spec.Prosser
 import CbiVerif.Props.C03FunLike
+import CbiVerif.Props.C03FunConf
+import CbiVerif.Props.C03Strcat
 /-! # C03 — macro definition and expansion conform to the C standard
 
 Model `M` = `CbiVerif.MX.cbiExpand` (the step machine the driver executes), spec `S` = `CbiVerif.Spec.Prosser.prosser`.
@@ -14,7 +16,7 @@ Model `M` = `CbiVerif.MX.cbiExpand` (the step machine the driver executes), spec
   finding D10; `D10_witness`, `D12_witness_small` pin the findings that are still open, each is replayed on the real code by the
   harness);
 * repaired findings, now positive statements: `D9_fixed`, `D9_chain_fixed`, `D11_fixed` (+ `D11_regression`: what the machine
-  did before the repair), `D35_fixed`, `D36_fixed`, `D37_fixed`, `literals_not_substituted`, `D40_fixed`, `D41_fixed`, `argument_tokens_not_substituted`;
+  did before the repair), `D35_fixed`, `D36_fixed`, `D37_fixed`, `D44_fixed`, `literals_not_substituted`, `D40_fixed`, `D41_fixed`, `argument_tokens_not_substituted`;
 * `object_like_partial` (model = recursive reference `E` started with nothing disabled), `object_like_conforms_partial` (model =
   `Spec.Prosser` itself on object-like tables without `##`/`defined`; macros named `None` included), `terminates_objlike_partial`,
   `no_backstop_objlike` — proved part of `Full`/termination;
@@ -24,10 +26,16 @@ Model `M` = `CbiVerif.MX.cbiExpand` (the step machine the driver executes), spec
 
 Function-like macros without `#` / `##` / variadic parameters: `Props/C03FunLike.lean` (`funlike_partial`: model = recursive
 reference `Ref` on the decidable fragment `fitsb`; `terminates_funlike_partial`, `no_backstop_funlike`; `FunLikeFull` = what
-remains open).
+remains open) and `Props/C03FunConf.lean` (`funlike_conforms_partial`, `funlike_simple_conforms_partial`: model = `Spec.Prosser` itself
+where calls have exact arity and call arguments hold no macro name; `ref_vs_prosser_witness`: why not on all of `fitsb`;
+`D44_fixed` below: literals spelled `,` `(` `)` in calls).
 
-Not proved (covered by correspondence + Prosser spec + gcc oracle only): `#`, `##`, variadic parameters; function-like calls
-completed by tokens outside the token list that holds the macro name; the function-like reference against `Spec.Prosser`;
+Macros with `#` / `##`: `Props/C03Strcat.lean` (`strcat_partial`: model = the recursive reference `RefS` built on the model of
+`MacroFunction.replace`; `StrcatConformsFull` = what remains open against the specification).
+
+Not proved (covered by correspondence + Prosser spec + gcc oracle only): `#`, `##` against the specification, variadic parameters; function-like calls
+completed by tokens outside the token list that holds the macro name; the function-like reference against `Spec.Prosser` for
+calls whose arguments hold macro names;
 termination outside the proved fragments (the model is total by fuel, the real code is observed under a time limit). -/
 namespace CbiVerif.C03
 open CbiVerif.PP CbiVerif.MX
@@ -305,6 +313,13 @@ theorem D36_fixed : expandText [] ["V(...) 1"] "V(2) V() V(1,2)" = .ok ["1", "1"
     two-parameter `H`) does no harm, exactly as for an unused named parameter -/
 theorem D43_fixed : expandText [] ["V(x,...) x", "H(a,b) 1"] "V(2, 3, H())" = .ok ["2"] ∧
     specText ["V(x,...) x", "H(a,b) 1"] "V(2, 3, H())" = some ["2"] := by
+  decide +kernel
+
+/-- D44 (repaired): only punctuators delimit the arguments of a call; a string or character literal spelled `,` `(` `)` is an
+    ordinary argument token (the general statement is `funlike_conforms_partial`, whose token condition `CTok` no longer
+    excludes such literals) -/
+theorem D44_fixed : expandText [] ["F(x,y) x+y"] "F(\",\",2) F(\"(\",2) F(')',2)" = .ok ["\",\"", "+", "2", "\"(\"", "+", "2", "')'", "+", "2"] ∧
+    specText ["F(x,y) x+y"] "F(\",\",2) F(\"(\",2) F(')',2)" = some ["\",\"", "+", "2", "\"(\"", "+", "2", "')'", "+", "2"] := by
   decide +kernel
 
 /-- D37 (repaired): a string literal whose content is a parameter name is not a parameter -/
